@@ -45,6 +45,9 @@ def run(idx: Index, rep: Report, tier: str):
     check_option_passthrough(idx, rep, "K7.option-passthrough", idx.function(f"{VQE}::VQESolver.__init__"), minimum=4)      # deflation_coeff = 0 means no deflation
     # operator_expectation("N" | "Sz" | "S^2") evaluates the built-in operators: they have to be the physical ones
     check_hcb_symmetry_operators(idx, rep)
+    # the energy is the expectation value of the Hamiltonian the solver holds NOW: nothing derived from an operator is remembered on the backend (shared with C02)
+    from .C02 import check_stateless_evaluation
+    check_stateless_evaluation(idx, rep, tier)
     from . import C12
     C12.check_symmetry_operators(idx, rep, "quick")
 
